@@ -20,6 +20,16 @@ var registry = map[string][]func(*Ctx){}
 
 // register adds rules to a property's rule set; a rule that is already there is not added twice (several init functions
 // may name the same rule for the same property).
+// lateRegistry: rules that run after every other rule of the property (they read c.Functions).
+var lateRegistry = map[string][]func(*Ctx){}
+
+func registerLate(prop string, fns ...func(*Ctx)) {
+	if _, ok := registry[prop]; !ok {
+		registry[prop] = nil
+	}
+	lateRegistry[prop] = append(lateRegistry[prop], fns...)
+}
+
 func register(prop string, fns ...func(*Ctx)) {
 	for _, fn := range fns {
 		dup := false
@@ -106,6 +116,10 @@ func main() {
 				}
 			}()
 			for _, r := range rules {
+				r(c)
+			}
+			// the Go-language rules run over the call-graph cone of the functions the other rules analysed: after them
+			for _, r := range lateRegistry[id] {
 				r(c)
 			}
 			ruleSizeThresholds(c)
